@@ -402,16 +402,16 @@ tiers! { parse_i32: unwind(9, 10), d_parse_i32::<5>(), d_parse_i32::<6>(),
 tiers! { parse_bool: unwind(9, 10), d_parse_bool::<6>(), d_parse_bool::<7>(),
     calls("konst::Parser::parse_bool"),
     bounds("string <=6 bytes, every window", "string <=7") }
-tiers! { split_protocol: unwind(10, 11), split_protocol::<3, 1, false>(), split_protocol::<4, 1, true>(),
+tiers! { split_protocol: unwind(10, 11), split_protocol::<3, 1, false>(), split_protocol::<4, 1, false>(),
     calls("konst::Parser::split"),
-    bounds("fresh parser over every string <=3 bytes, the delimiter \",\", split repeated 7 times", "every string <=4 bytes, every 1-byte delimiter") }
-tiers! { rsplit_protocol: unwind(10, 11), rsplit_protocol::<3, 1, false>(), rsplit_protocol::<4, 1, true>(),
+    bounds("fresh parser over every string <=3 bytes, the delimiter \",\", split repeated 7 times", "every string <=4 bytes, the delimiter \",\" (a symbolic 1-byte delimiter takes 17-30+ min per harness)") }
+tiers! { rsplit_protocol: unwind(10, 11), rsplit_protocol::<3, 1, false>(), rsplit_protocol::<4, 1, false>(),
     calls("konst::Parser::rsplit"),
-    bounds("fresh parser over every string <=3 bytes, the delimiter \",\", rsplit repeated 7 times", "every string <=4 bytes, every 1-byte delimiter") }
-tiers! { split_terminator_protocol: unwind(10, 11), split_terminator_protocol::<3, 1, false, false>(), split_terminator_protocol::<4, 1, false, true>(),
+    bounds("fresh parser over every string <=3 bytes, the delimiter \",\", rsplit repeated 7 times", "every string <=4 bytes, the delimiter \",\" (a symbolic 1-byte delimiter takes 17-30+ min per harness)") }
+tiers! { split_terminator_protocol: unwind(10, 11), split_terminator_protocol::<3, 1, false, false>(), split_terminator_protocol::<4, 1, false, false>(),
     calls("konst::Parser::split_terminator"),
-    bounds("fresh parser over every string <=3 bytes, the delimiter \",\", repeated 6 times", "every string <=4 bytes, every 1-byte delimiter") }
-tiers! { rsplit_terminator_protocol: unwind(10, 11), split_terminator_protocol::<3, 1, true, false>(), split_terminator_protocol::<4, 1, true, true>(),
+    bounds("fresh parser over every string <=3 bytes, the delimiter \",\", repeated 6 times", "every string <=4 bytes, the delimiter \",\" (a symbolic 1-byte delimiter takes 17-30+ min per harness)") }
+tiers! { rsplit_terminator_protocol: unwind(10, 11), split_terminator_protocol::<3, 1, true, false>(), split_terminator_protocol::<4, 1, true, false>(),
     calls("konst::Parser::rsplit_terminator"),
     bounds("fresh parser over every string <=3 bytes, the delimiter \",\", repeated 6 times", "string <=6, delimiter <=3") }
 tiers! { split_interleaved_0: unwind(9, 10), split_interleaved::<1, 1, 0>(), split_interleaved::<1, 3, 0>(),
